@@ -1,8 +1,248 @@
-From Coq Require Import ZArith List Bool.
-From Verif Require Import lib.C12_Py lib.C12_ZList gen.Sphere C12.Model C12.ProofsG711 C12.Proofs.
+(* C12 - the property theorems, and nothing else.  Each is closed by [exact] of a
+   lemma of the Proofs*.v files; the axioms each depends on are printed beneath
+   it.  All are statements about C12/Model.v over the parts regenerated from
+   _sphere.py into gen/Sphere.v (tables, constants, key dispatch, header guards,
+   in_type chain); the vocabulary of the statements is C12/Spec.v. *)
+From Coq Require Import String ZArith List Bool.
+From Verif Require Import lib.C12_Py lib.C12_ZList gen.Sphere C12.Model C12.Spec
+  C12.ProofsBytes C12.ProofsG711 C12.ProofsLoop C12.Proofs C12.ProofsHeader C12.ProofsFile.
 Import ListNotations.
 Open Scope Z_scope.
 
-Theorem g711_ulaw_table : length ULAW2PCM = 256%nat /\ forall c, 0 <= c < 256 -> nthz ULAW2PCM c = ulaw_expand c.
+(* ---- G.711: the literal tables of the source are the ITU-T expansion, all 256 codes *)
+Theorem g711_ulaw_table :
+  length ULAW2PCM = 256%nat /\ forall c, 0 <= c < 256 -> nthz ULAW2PCM c = ulaw_expand c.
 Proof. exact ulaw_table_l. Qed.
 Print Assumptions g711_ulaw_table.
+Theorem g711_alaw_table :
+  length ALAW2PCM = 256%nat /\ forall c, 0 <= c < 256 -> nthz ALAW2PCM c = alaw_expand c.
+Proof. exact alaw_table_l. Qed.
+Print Assumptions g711_alaw_table.
+(* the bit formulas are the Recommendation's sign / segment / mantissa arithmetic *)
+Theorem g711_ulaw_arith : forall c, 0 <= c < 256 -> ulaw_expand c = ulaw_arith c.
+Proof. exact ulaw_arith_l. Qed.
+Print Assumptions g711_ulaw_arith.
+Theorem g711_alaw_arith : forall c, 0 <= c < 256 -> alaw_expand c = alaw_arith c.
+Proof. exact alaw_arith_l. Qed.
+Print Assumptions g711_alaw_arith.
+Theorem g711_range : forall c, 0 <= c < 256 ->
+  -32768 <= ulaw_expand c <= 32767 /\ -32768 <= alaw_expand c <= 32767.
+Proof. exact g711_range_l. Qed.
+Print Assumptions g711_range.
+Theorem g711_sign_symmetry : forall c, 0 <= c < 128 ->
+  ulaw_expand (c + 128) = - ulaw_expand c /\ alaw_expand (c + 128) = - alaw_expand c.
+Proof. exact g711_sign_symmetry_l. Qed.
+Print Assumptions g711_sign_symmetry.
+Theorem g711_ulaw_monotone : forall c, 128 <= c < 255 -> ulaw_expand (c + 1) < ulaw_expand c.
+Proof. exact ulaw_monotone_l. Qed.
+Print Assumptions g711_ulaw_monotone.
+Theorem g711_alaw_monotone : forall a, 128 <= a < 255 ->
+  alaw_expand (Z.lxor a 85) < alaw_expand (Z.lxor (a + 1) 85).
+Proof. exact alaw_monotone_l. Qed.
+Print Assumptions g711_alaw_monotone.
+
+(* ---- the read loop, for EVERY way the data section arrives as non-empty reads
+   (all buffer sizes, short reads of pipes, any channel count / frame size):
+   either the declared-shorten hand-off, or one conversion of the first
+   min(sample_count, complete frames present) frames; unwritten cells stay apart *)
+Theorem read_loop_any_chunking : forall P chunks,
+  wf_params P -> Forall (fun c => c <> []) chunks ->
+  copy_loop P chunks (init_state P) =
+  if magic_hit P chunks then LShorten else loop_spec P (concat chunks).
+Proof. exact copy_loop_correct_l. Qed.
+Print Assumptions read_loop_any_chunking.
+
+Theorem copy_samples_any_chunking : forall h dt P,
+  params_of h dt = Some P -> 1 <= h_chans h -> 1 <= h_count h -> h_short h = false ->
+  forall chunks, Forall (fun c => c <> []) chunks ->
+  copy_samples_chunks h dt chunks = decoded_outcome P (concat chunks).
+Proof. exact copy_any_chunking_l. Qed.
+Print Assumptions copy_samples_any_chunking.
+
+Theorem read_size_irrelevant : forall h dt data bs1 bs2,
+  0 < bs1 -> 0 < bs2 -> 1 <= h_chans h -> 0 <= h_count h -> h_short h = false ->
+  copy_samples bs1 h dt data = copy_samples bs2 h dt data.
+Proof. exact read_size_irrelevant_l. Qed.
+Print Assumptions read_size_irrelevant.
+
+(* PCM of any supported width (1, 2, 4 bytes), either byte order, any requested
+   dtype, any chunking, trailing bytes allowed: exactly the stored samples *)
+Theorem pcm_roundtrip : forall h dt P,
+  params_of h dt = Some P -> 1 <= h_chans h -> 1 <= h_count h -> h_short h = false ->
+  forall samples extra chunks,
+  p_convert P = false ->
+  len samples = h_count h * h_chans h ->
+  Forall (in_range (8 * h_size h) (p_signed P)) samples ->
+  Forall (fun c => c <> []) chunks ->
+  concat chunks = encode_items (h_size h) (p_be P) samples ++ extra ->
+  copy_samples_chunks h dt chunks =
+  Decoded false (p_dtype P) (shape_of (h_count h) (h_chans h)) (map Some (map (cast (p_dtype P)) samples)).
+Proof. exact pcm_roundtrip_l. Qed.
+Print Assumptions pcm_roundtrip.
+
+(* fewer complete frames than promised: warning, exactly the frames present
+   (a trailing partial frame is ignored, no uninitialised cell is returned) *)
+Theorem truncated_returns_present : forall h dt P,
+  params_of h dt = Some P -> 1 <= h_chans h -> 1 <= h_count h -> h_short h = false ->
+  forall samples partial n chunks,
+  p_convert P = false ->
+  0 <= n < h_count h ->
+  len samples = n * h_chans h ->
+  len partial < h_chans h * h_size h ->
+  Forall (in_range (8 * h_size h) (p_signed P)) samples ->
+  Forall (fun c => c <> []) chunks ->
+  concat chunks = encode_items (h_size h) (p_be P) samples ++ partial ->
+  copy_samples_chunks h dt chunks =
+  Decoded true (p_dtype P) (shape_of n (h_chans h)) (map Some (map (cast (p_dtype P)) samples)).
+Proof. exact truncated_l. Qed.
+Print Assumptions truncated_returns_present.
+
+(* mu-law / A-law, complete or truncated, any requested dtype: expanded by the
+   G.711 formulas when the dtype is wider than one byte, raw codes otherwise *)
+Theorem law_roundtrip : forall h dt P,
+  params_of h dt = Some P -> 1 <= h_chans h -> 1 <= h_count h -> h_short h = false ->
+  h_coding h <> Pcm -> h_size h = 1 ->
+  forall codes tail n chunks,
+  0 <= n <= h_count h ->
+  len codes = n * h_chans h ->
+  (n = h_count h \/ len tail < h_chans h) ->
+  Forall (fun b => 0 <= b < 256) codes ->
+  Forall (fun c => c <> []) chunks ->
+  concat chunks = codes ++ tail ->
+  copy_samples_chunks h dt chunks =
+  Decoded (negb (n =? h_count h)) (p_dtype P) (shape_of n (h_chans h))
+    (map Some (map (cast (p_dtype P))
+                   (if 1 <? dsize (p_dtype P) then map (expand (h_coding h)) codes else codes))).
+Proof. exact law_outcome. Qed.
+Print Assumptions law_roundtrip.
+
+(* only a header that declares shorten sends data starting with the shorten
+   magic to the shorten decoder (property C13) *)
+Theorem shorten_dispatch : forall h dt P c cs,
+  params_of h dt = Some P -> wf_params P -> 0 < p_count P -> p_short P = true ->
+  Forall (fun c => c <> []) (c :: cs) -> take (len shorten_magic) c = shorten_magic ->
+  copy_samples_chunks h dt (c :: cs) = Shorten.
+Proof. exact shorten_dispatch_l. Qed.
+Print Assumptions shorten_dispatch.
+
+(* ---- the header: the reader recovers exactly the written fields *)
+Theorem header_written_parses : forall hs fields filler data,
+  hdr_first_read <= hs -> hdr_min_size <= hs ->
+  Forall good_field fields ->
+  len (size_line hs) + len nist_magic + 2 <= hdr_first_read ->
+  len (header_text hs fields ++ filler) = hs ->
+  read_header (sphere_file hs fields filler data) =
+  match fields_sem fields hvars0 with
+  | FEnd v => finish_header v data
+  | FErr => HErr EIO
+  | FUnmodelled => HUnmodelled
+  end.
+Proof. exact read_header_written. Qed.
+Print Assumptions header_written_parses.
+
+Theorem std_header_parses : forall hs pre c size order chans count rate filler data,
+  layout hs pre c size order chans count rate filler ->
+  read_header (std_file hs pre c size order chans count rate filler data)
+  = HOk (std_header c size order chans count rate) data.
+Proof. exact std_file_header. Qed.
+Print Assumptions std_header_parses.
+
+(* read_header raises nothing but the reader's IOError - except TypeError for a
+   header without sample_n_bytes (sampsize = samptype & 3) *)
+Theorem header_errors : forall file e, read_header file = HErr e -> e = EIO \/ e = EType.
+Proof. exact read_header_errors_l. Qed.
+Print Assumptions header_errors.
+
+(* boundary of "any sample count": a declared count of 0 is rejected *)
+Theorem zero_count_ioerror : forall v data, v_count v = Some 0 -> finish_header v data = HErr EIO.
+Proof. exact zero_count_ioerror_l. Qed.
+Print Assumptions zero_count_ioerror.
+
+(* ---- whole files, any positive read size [bs], any header size [hs] >= 1024,
+   any ignored extra fields, any channel and sample count >= 1 *)
+Theorem pcm16_file_roundtrip : forall bs hs pre chans count rate filler,
+  0 < bs -> forall be samples extra,
+  layout hs pre Pcm 2 (Some (order_name be)) chans count rate filler ->
+  len samples = count * chans -> Forall int16_range samples ->
+  sphere_read_bs bs (std_file hs pre Pcm 2 (Some (order_name be)) chans count rate filler
+                              (encode_items 2 be samples ++ extra)) None
+  = Decoded false int16 (shape_of count chans) (map Some samples).
+Proof. exact pcm16_file_roundtrip_l. Qed.
+Print Assumptions pcm16_file_roundtrip.
+
+Theorem pcm16_file_truncated : forall bs hs pre chans count rate filler,
+  0 < bs -> forall be samples partial n,
+  layout hs pre Pcm 2 (Some (order_name be)) chans count rate filler ->
+  0 <= n < count -> len samples = n * chans -> len partial < chans * 2 -> Forall int16_range samples ->
+  sphere_read_bs bs (std_file hs pre Pcm 2 (Some (order_name be)) chans count rate filler
+                              (encode_items 2 be samples ++ partial)) None
+  = Decoded true int16 (shape_of n chans) (map Some samples).
+Proof. exact pcm16_file_truncated_l. Qed.
+Print Assumptions pcm16_file_truncated.
+
+Theorem law_file_expanded : forall bs hs pre chans count rate filler,
+  0 < bs -> forall c order codes extra,
+  c <> Pcm -> layout hs pre c 1 order chans count rate filler ->
+  len codes = count * chans -> Forall byte_range codes ->
+  sphere_read_bs bs (std_file hs pre c 1 order chans count rate filler (codes ++ extra)) None
+  = Decoded false int16 (shape_of count chans) (map Some (map (expand c) codes)).
+Proof. exact law_file_expanded_l. Qed.
+Print Assumptions law_file_expanded.
+
+Theorem law_file_raw : forall bs hs pre chans count rate filler,
+  0 < bs -> forall c order codes extra,
+  c <> Pcm -> layout hs pre c 1 order chans count rate filler ->
+  len codes = count * chans -> Forall byte_range codes ->
+  sphere_read_bs bs (std_file hs pre c 1 order chans count rate filler (codes ++ extra)) (Some uint8)
+  = Decoded false uint8 (shape_of count chans) (map Some codes).
+Proof. exact law_file_raw_l. Qed.
+Print Assumptions law_file_raw.
+
+Theorem law_file_truncated : forall bs hs pre chans count rate filler,
+  0 < bs -> forall c order codes partial n,
+  c <> Pcm -> layout hs pre c 1 order chans count rate filler ->
+  0 <= n < count -> len codes = n * chans -> len partial < chans -> Forall byte_range codes ->
+  sphere_read_bs bs (std_file hs pre c 1 order chans count rate filler (codes ++ partial)) None
+  = Decoded true int16 (shape_of n chans) (map Some (map (expand c) codes)).
+Proof. exact law_file_truncated_l. Qed.
+Print Assumptions law_file_truncated.
+
+Theorem law_file_any_dtype : forall bs hs pre chans count rate filler,
+  0 < bs -> forall c order d codes tail n,
+  c <> Pcm -> layout hs pre c 1 order chans count rate filler ->
+  0 <= n <= count -> len codes = n * chans -> (n = count \/ len tail < chans) ->
+  Forall byte_range codes ->
+  let dty := match d with Some x => x | None => int16 end in
+  sphere_read_bs bs (std_file hs pre c 1 order chans count rate filler (codes ++ tail)) d
+  = Decoded (negb (n =? count)) dty (shape_of n chans)
+      (map Some (map (cast dty) (if 1 <? dsize dty then map (expand c) codes else codes))).
+Proof. exact law_file_l. Qed.
+Print Assumptions law_file_any_dtype.
+
+(* the reader itself uses the read size found in the source, which is positive *)
+Theorem actual_read_size : forall file dt,
+  sphere_read file dt = sphere_read_bs copy_buf_size file dt /\ 0 < copy_buf_size.
+Proof. exact actual_read_size_l. Qed.
+Print Assumptions actual_read_size.
+
+(* ---- no NIST_1A header of at least 1024 bytes -> IOError *)
+Theorem bad_header_short_file : forall file dt bs,
+  len file < hdr_first_read -> sphere_read_bs bs file dt = Error EIO.
+Proof. exact short_file_ioerror_l. Qed.
+Print Assumptions bad_header_short_file.
+Theorem bad_header_magic : forall file dt bs,
+  take (len nist_magic) file <> nist_magic -> sphere_read_bs bs file dt = Error EIO.
+Proof. exact bad_magic_ioerror_l. Qed.
+Print Assumptions bad_header_magic.
+Theorem bad_header_small_size : forall file dt bs l z,
+  nth_error (split_nl (take hdr_first_read file) []) 1 = Some l ->
+  py_int (strip is_space_b l) = Some z -> z < hdr_min_size ->
+  sphere_read_bs bs file dt = Error EIO.
+Proof. exact small_header_size_ioerror_l. Qed.
+Print Assumptions bad_header_small_size.
+Theorem bad_header_unparsable_size : forall file dt bs,
+  (nth_error (split_nl (take hdr_first_read file) []) 1 = None \/
+   exists l, nth_error (split_nl (take hdr_first_read file) []) 1 = Some l /\ py_int (strip is_space_b l) = None) ->
+  sphere_read_bs bs file dt = Error EIO.
+Proof. exact unparsable_header_size_ioerror_l. Qed.
+Print Assumptions bad_header_unparsable_size.
